@@ -152,10 +152,7 @@ impl MarkdownWriter {
         for inline in inlines {
             match inline {
                 GraphInline::Code(_, code) => {
-                    events.push(Event::Start(Tag::CodeBlock(
-                        pulldown_cmark::CodeBlockKind::Fenced(code.into()),
-                    )));
-                    events.push(Event::End(TagEnd::CodeBlock));
+                    events.push(Event::Code(code.into()));
                 }
                 GraphInline::Emph(vec) => {
                     events.push(Event::Start(Tag::Emphasis));
